@@ -252,11 +252,11 @@ def coinbase_tx(
         coinbase tx
 
     """
-    blocks_per_halving = 2016 if not regtest else 150
+    blocks_per_halving = 210000 if not regtest else 150
 
-    if block_height:
+    if block_height is not None:
         max_reward = int(50e8)
-        halvings = block_height // 150
+        halvings = block_height // blocks_per_halving
         if halvings:
             max_reward //= 2**halvings
         if block_reward:
